@@ -81,7 +81,7 @@ PROPS = {
         "assumptions": COMMON_ASSUMPTIONS,
     },
     "C17": {
-        "lean_modules": ["Perp.Props.C17", "Perp.Props.EngineGuards", "Perp.Props.SatTrace", "Perp.Props.SatFlows", "Perp.Props.SatC17", "Perp.Props.SatEWitness", "Perp.Props.SatE", "Perp.Props.Capstone", "Perp.Props.MonitorSound", "Perp.Props.CapstoneTx", "Perp.Props.MonitorTxSound"],
+        "lean_modules": ["Perp.Props.C17", "Perp.Props.EngineGuards", "Perp.Props.SatTrace", "Perp.Props.SatFlows", "Perp.Props.SatC17", "Perp.Props.SatEWitness", "Perp.Props.SatE", "Perp.Props.Capstone", "Perp.Props.MonitorSound", "Perp.Props.CapstoneTx", "Perp.Props.MonitorTxSound", "Perp.Props.SatLimitV"],
         "runs": lambda tier, seed: [vamm_run(tier, seed)] + world_runs(tier, seed),
         "rule": VAMM_RULE + "; for every swap the harness also runs the same swap without a limit on a copy of the state (twin) to separate limit rejections from other rejections",
         "assumptions": COMMON_ASSUMPTIONS,
@@ -133,7 +133,7 @@ PROPS = {
         "rule": WORLD_RULE, "assumptions": WORLD_ASSUMPTIONS,
     },
     "C20": {
-        "lean_modules": ["Perp.Props.VammGuards", "Perp.Props.EngineGuards", "Perp.Props.SatCBase", "Perp.Props.SatCFlow", "Perp.Props.SatCCaps", "Perp.Props.SatC", "Perp.Props.Capstone", "Perp.Props.MonitorSound", "Perp.Props.CapstoneTx", "Perp.Props.MonitorTxSound", "Perp.Props.Inst", "Perp.Props.DeployOK"],
+        "lean_modules": ["Perp.Props.VammGuards", "Perp.Props.EngineGuards", "Perp.Props.SatCBase", "Perp.Props.SatCFlow", "Perp.Props.SatCCaps", "Perp.Props.SatC", "Perp.Props.Capstone", "Perp.Props.MonitorSound", "Perp.Props.CapstoneTx", "Perp.Props.MonitorTxSound", "Perp.Props.Inst", "Perp.Props.DeployOK", "Perp.Props.InstV", "Perp.Props.DeployFields"],
         "runs": lambda tier, seed: world_runs(tier, seed) + [vamm_run(tier, seed, 600, 10000)],
         "rule": WORLD_RULE, "assumptions": WORLD_ASSUMPTIONS,
     },
@@ -170,7 +170,7 @@ PROPS = {
         "rule": WORLD_RULE, "assumptions": WORLD_ASSUMPTIONS,
     },
     "C12": {
-        "lean_modules": ["Perp.Props.EngineGuards", "Perp.Props.EngineMoney", "Perp.Props.TxLog", "Perp.Props.TxMoney", "Perp.Props.TxFlow", "Perp.Props.SatOpen", "Perp.Props.SatClose", "Perp.Props.SatFree", "Perp.Props.SatB", "Perp.Props.Capstone", "Perp.Props.MonitorSound", "Perp.Props.CapstoneTx", "Perp.Props.MonitorTxSound"],
+        "lean_modules": ["Perp.Props.EngineGuards", "Perp.Props.EngineMoney", "Perp.Props.TxLog", "Perp.Props.TxMoney", "Perp.Props.TxFlow", "Perp.Props.SatOpen", "Perp.Props.SatClose", "Perp.Props.SatFree", "Perp.Props.SatB", "Perp.Props.Capstone", "Perp.Props.MonitorSound", "Perp.Props.CapstoneTx", "Perp.Props.MonitorTxSound", "Perp.Props.InstV", "Perp.Props.DeployFields"],
         "runs": lambda tier, seed: world_runs(tier, seed),
         "rule": WORLD_RULE, "assumptions": WORLD_ASSUMPTIONS,
     },
